@@ -1388,6 +1388,54 @@ impl Gen {
         for u in ["alice", "bob", "carol"] { self.q_rewards(u, None); self.tx(u, SMsg::FmClaim(None), vec![]); }
     }
 
+    /// configuration values outside the ranges the code silently relies on: unlocking bounds widened beyond one day … one
+    /// year (the weight curve's domain), then narrowed to a point; penalty at its extremes; expiration and epoch buffer at
+    /// their minima; the farm limit raised; each followed by positions at and beyond the old bounds, expansions, partial
+    /// closes, emergency exits (the penalty multiplies with the weight) and claims
+    fn probe_config_extremes(&mut self) {
+        let Some(p) = self.mk_pool("a", &[("uom", 6), ("uusd", 6)], None, Self::std_fees()) else { return; };
+        let lp = self.lp_of(&p);
+        for u in ["alice", "bob", "carol"] { self.plain_provide(u, &p, vec![("uom".into(), 1_000_000_000), ("uusd".into(), 1_000_000_000)], None); }
+        let owner = self.current_owner("FM");
+        self.mk_farm("carol", &lp, "uusdc", 1000, 8, Some("f".into()), 1);
+        let k = 1 + self.rng.below(5) as u128;
+        let year = 31_556_926u64;
+        let mut u = SFmUpdate::default(); u.min_unlock = Some(3600); u.max_unlock = Some(2 * year);
+        self.tx(&owner, SMsg::FmUpdateConfig(u), vec![]);
+        for (i, dur) in [year, year + 1, 2 * year, DAY, DAY - 1, 3600, 3599, 2 * year + 1].iter().enumerate() {
+            self.tx("alice", SMsg::FmPosCreate { id: Some(format!("d{}", i)), dur: *dur, receiver: None }, vec![(lp.clone(), 1000 * k)]);
+        }
+        self.tx("alice", SMsg::PmProvide { liq_slip: None, swap_slip: None, receiver: None, pool: p.clone(), unlock: Some(2 * year), lock_id: Some("pm2y".into()) }, vec![("uom".into(), 50_000), ("uusd".into(), 50_000)]);
+        self.tx("alice", SMsg::PmProvide { liq_slip: None, swap_slip: None, receiver: None, pool: p.clone(), unlock: Some(3600), lock_id: None }, vec![("uom".into(), 50_000), ("uusd".into(), 50_000)]);
+        self.tx("bob", SMsg::FmPosCreate { id: Some("b".into()), dur: DAY, receiver: None }, vec![(lp.clone(), 1000 * k)]);
+        self.next_epoch();
+        self.q_rewards("alice", None); self.q_rewards("bob", None);
+        self.tx("alice", SMsg::FmClaim(None), vec![]);
+        // the bounds narrowed to a point below the existing positions' durations; penalty at both extremes
+        let mut u = SFmUpdate::default(); u.min_unlock = Some(2 * DAY); u.max_unlock = Some(2 * DAY); u.penalty = Some(DEC);
+        self.tx(&owner, SMsg::FmUpdateConfig(u), vec![]);
+        let mut u = SFmUpdate::default(); u.penalty = Some(DEC + 1);
+        self.tx(&owner, SMsg::FmUpdateConfig(u), vec![]);
+        self.tx("alice", SMsg::FmPosExpand("u-d0".into()), vec![(lp.clone(), 500)]);
+        self.tx("alice", SMsg::FmPosExpand("u-d2".into()), vec![(lp.clone(), 500)]);
+        self.tx("alice", SMsg::FmPosClose("u-d0".into(), Some((lp.clone(), 300))), vec![]);
+        self.tx("alice", SMsg::FmPosClose("u-d2".into(), Some((lp.clone(), 300))), vec![]);
+        self.tx("alice", SMsg::FmPosWithdraw("u-d0".into(), Some(true)), vec![]);
+        self.tx("alice", SMsg::FmPosWithdraw("u-d2".into(), Some(true)), vec![]);
+        self.tx("alice", SMsg::FmPosWithdraw("u-d3".into(), Some(true)), vec![]);
+        self.tx("bob", SMsg::FmPosCreate { id: Some("b2".into()), dur: 2 * DAY, receiver: None }, vec![(lp.clone(), 1000)]);
+        let mut u = SFmUpdate::default(); u.penalty = Some(0); u.expiration = Some(0); u.epoch_buffer = Some(0); u.max_farms = Some(1);
+        self.tx(&owner, SMsg::FmUpdateConfig(u), vec![]);
+        let mut u = SFmUpdate::default(); u.penalty = Some(0); u.max_farms = Some(101); u.epoch_buffer = Some(1);
+        self.tx(&owner, SMsg::FmUpdateConfig(u), vec![]);
+        self.tx("bob", SMsg::FmPosWithdraw("u-b".into(), Some(true)), vec![]);
+        self.mk_farm("bob", &lp, "uom", 1000, 4, Some("g".into()), 1);
+        self.mk_farm("bob", &lp, "uom", 1000, 4, Some("h".into()), 3);
+        for _ in 0..2 { self.next_epoch(); for w in ["alice", "bob"] { self.q_rewards(w, None); self.tx(w, SMsg::FmClaim(None), vec![]); } }
+        self.tx("alice", SMsg::FmPosClose("u-pm2y".into(), None), vec![]);
+        self.tx("alice", SMsg::FmPosWithdraw("u-pm2y".into(), Some(true)), vec![]);
+    }
+
     /// a farm driven to (and past) the end of its budget: a user's weight inflated by the until_epoch synchronisation
     /// (finding F-until) makes a multi-epoch claim whose sum exceeds the remainder while no single epoch does; then the
     /// other stakers' claims, a closing of the farm and the withdrawals
@@ -1599,7 +1647,7 @@ pub fn generate_probes(seed: u64, count: usize) -> Family {
         "From MD.Model Require Import Base Ownable Epoch PoolMath Types PoolManager FarmManager Chain CasesChain.",
         "chain_case",
         "run_chain_case",
-        "deterministic probe scripts, one per narrow situation (asset order after a slippage-protected deposit, foreign lock identifiers, malformed route junctions, extra fees, all feature-switch combinations, single-asset corner cases, farm funds in the fee denom, expiry windows, penalty sharing, thirds, position limit, empty claims, fractional weights, failing refunds, huge and unusual decimals, every position operation against every position state, a farm driven past the end of its budget, identifiers meeting objects of the same or a related name); amounts vary with the PRNG; full canonical snapshot compared after every operation",
+        "deterministic probe scripts, one per narrow situation (asset order after a slippage-protected deposit, foreign lock identifiers, malformed route junctions, extra fees, all feature-switch combinations, single-asset corner cases, farm funds in the fee denom, expiry windows, penalty sharing, thirds, position limit, empty claims, fractional weights, failing refunds, huge and unusual decimals, every position operation against every position state, a farm driven past the end of its budget, identifiers meeting objects of the same or a related name, configuration values outside the ranges the code relies on); amounts vary with the PRNG; full canonical snapshot compared after every operation",
     );
     type F = fn(&mut Gen);
     let list: Vec<(&str, F)> = vec![
@@ -1608,7 +1656,7 @@ pub fn generate_probes(seed: u64, count: usize) -> Family {
         ("farm-funds", Gen::probe_farm_funds as F), ("expiry-window", Gen::probe_expiry_window as F), ("penalty-split", Gen::probe_penalty_split as F),
         ("thirds", Gen::probe_thirds as F), ("position-limit", Gen::probe_position_limit as F), ("empty-claims", Gen::probe_empty_claims as F),
         ("fractional-weights", Gen::probe_fractional_weights as F), ("failing-refunds", Gen::probe_failing_refunds as F), ("big-and-decimals", Gen::probe_big_and_decimals as F),
-        ("position-states", Gen::probe_position_states as F), ("exhaustion", Gen::probe_exhaustion as F), ("identifier-namespaces", Gen::probe_identifier_namespaces as F),
+        ("position-states", Gen::probe_position_states as F), ("exhaustion", Gen::probe_exhaustion as F), ("identifier-namespaces", Gen::probe_identifier_namespaces as F), ("config-extremes", Gen::probe_config_extremes as F),
     ];
     let mut rng = Rng::new(seed ^ 0x9B0B);
     let mut i = 0usize;
